@@ -431,3 +431,48 @@ def derive_step(ctx, rep):
     _lemma(rep, "lemma: one iteration of _derive_mol_from_symbols from an arbitrary loop-head state (recursion replaced by its contract)",
            res, {"capacities, counts, state": "unbounded integers with state <= capacity(prev) - count(prev)",
                  "symbol": "free over %d symbols, followed by 3 free symbols (indices)" % len(ALPHA), "alphabet": ALPHA})
+
+
+def ring_order_step(ctx, rep):
+    """_form_rings_bilocally on a 4-atom chain with a branch and 2-3 ring candidates chosen by the solver (adjacent pairs
+    merge into the chain bond): afterwards every atom's out-bonds must be [ring bonds in formation order] + [chain and
+    branch bonds in derivation order] - the order that fixes the written neighbour sequence (C02, C04)."""
+    mg, dec = ctx.mg, ctx.dec
+    PAIRS = [(0, 1), (0, 2), (0, 3), (1, 2), (1, 3), (2, 3), (0, 4), (1, 4), (3, 4)]
+
+    def path(eng, col):
+        ctx.reset({"C": 9, "?": 9})
+        mol = mg.MolecularGraph()
+        atoms = [mol.add_atom(mg.Atom("C", False), i == 0) for i in range(5)]
+        # chain 0-1-2-3 and a branch atom 4 on atom 1 (derived before atom 2)
+        mol.add_bond(0, 1, 1, None)
+        mol.add_bond(1, 4, 1, None)
+        mol.add_bond(1, 2, 1, None)
+        mol.add_bond(2, 3, 1, None)
+        chain = {(0, 1), (1, 4), (1, 2), (2, 3)}
+        k = int(fresh_int("n_rings", 1, 3))
+        cands = []
+        for j in range(k):
+            pi = int(fresh_int("pair%d" % j, 0, len(PAIRS) - 1))
+            cands.append(PAIRS[pi])
+        rings = [(atoms[l], atoms[r], (1, (None, None))) for l, r in cands]
+        before = [[(b.src, b.dst) for b in mol.get_out_dirbonds(i)] for i in range(5)]
+        dec._form_rings_bilocally(mol, rings)
+        made = []
+        for l, r in cands:
+            if (l, r) not in chain and (l, r) not in made:
+                made.append((l, r))
+        bad = False
+        for i in range(5):
+            want = [(i, r if l == i else l) for (l, r) in made if i in (l, r)] + before[i]
+            got = [(b.src, b.dst) for b in mol.get_out_dirbonds(i)]
+            if got != want:
+                bad = True
+        col.nontrivial(tuple(cands))
+        col.sample({"candidates": cands, "ring_bonds_made": made})
+        if bad:
+            col.candidate({"prop": rep.pid, "kind": "ring_order", "candidates": [list(c) for c in cands]})
+
+    res = driver.explore_parallel(path, 60, nworkers=4)
+    _lemma(rep, "lemma ring placement: ring bonds come first in formation order, candidates on bonded pairs only raise the order", res,
+           {"graph": "chain of 4 atoms + one branch atom", "candidates": "1-3 pairs chosen by the solver from %r" % (PAIRS,)})
